@@ -280,6 +280,29 @@ func (gm *govModel) observe() (map[string]string, map[string]string) {
 			st[k] = "<none>"
 		}
 	}
+	if s.cfg.RuleOps {
+		// the validation rules of every appchain (status per rule address)
+		var rq []pb.Transaction
+		for _, c := range s.chains {
+			rq = append(rq, viewTx(who, constant.RuleManagerContractAddr, "Rules", pb.String(c.id)))
+		}
+		rr := r.viewCall(rq...)
+		for i, c := range s.chains {
+			if i >= len(rr) || rr[i] == nil || rr[i].Status != pb.Receipt_SUCCESS {
+				continue
+			}
+			var rules []struct {
+				Address string `json:"address"`
+				Status  string `json:"status"`
+			}
+			if json.Unmarshal(rr[i].Ret, &rules) != nil {
+				continue
+			}
+			for _, ru := range rules {
+				st["rule:"+c.id+":"+ru.Address] = ru.Status
+			}
+		}
+	}
 	return st, raw
 }
 
@@ -393,7 +416,8 @@ func afterBlockGov(s *scn, h uint64, txs []*pb.BxhTransaction, metas []*txMeta, 
 		}
 		id := k[strings.Index(k, ":")+1:]
 		chainID := strings.Split(id, ":")[0]
-		if gm.forbidden[k] && curSt[k] != "forbidden" {
+		if gm.forbidden[k] && curSt[k] != "forbidden" && !strings.HasPrefix(k, "rule:") {
+			// (rules are not in the statement's list: the appchain's logout clears its rules, logged-out ones included)
 			s.vio("C16", "forbidden-left", k[:strings.Index(k, ":")], "after block %d: %s was logged out (forbidden) and now has status %s", h, k, curSt[k])
 		}
 		if old != curSt[k] {
